@@ -18,7 +18,7 @@
    [parse_int64 s = Some n] (strconv.ParseInt as modelled and corresponded under C08). *)
 From Coq Require Import String ZArith NArith Bool List Lia.
 From V Require Import Base.GoInt Base.Bytes Merkle.Merkle TLS.TlsModel TLS.TlsRoundTripA CT.Rfc6962Spec
-  CTFE.HandlersModel CTFE.LogModel CTFE.LogProofsC CTFE.LogProofsD CTFE.LogProofsE CTFE.LogCase.
+  CTFE.HandlersModel CTFE.LogModel CTFE.LogProofsC CTFE.LogProofsD CTFE.LogProofsE CTFE.LogProofsF CTFE.LogCase.
 Import ListNotations.
 Open Scope Z_scope.
 
@@ -57,6 +57,23 @@ Theorem reachable_cache_is_valid : forall H sign sig_ok is_precert cfg trusted, 
   forall ns0 ops, hist_ok ns0 ops -> cache_valid sig_ok (after H sign is_precert cfg trusted wiring_ok (init ns0) ops).
 Proof. exact f_cache_valid_reachable. Qed.
 Print Assumptions reachable_cache_is_valid.
+
+(* 3b. a get-sth whose cache lookup missed and whose signer call returned an ERROR
+       (LogModel.fe_get_sth_signer_fails: the cache is written only after the signer returned a
+       signature) leaves backend and cache exactly as it found them and serves no tree head (500
+       unless an error mapper says otherwise); the retry is answered as if the failed request had
+       never been made - so theorems 1-3 apply to it unchanged *)
+Theorem signer_failure_leaves_no_trace : forall H sign cfg st,
+  fst (fe_get_sth_signer_fails H cfg st) = st /\
+  a_body (snd (fe_get_sth_signer_fails H cfg st)) = BNone /\
+  (forall rnd, fe_get_sth H sign cfg (fst (fe_get_sth_signer_fails H cfg st)) rnd = fe_get_sth H sign cfg st rnd) /\
+  ((forall x, length (H x) = 32%nat) -> c_sth cfg = SthLog -> c_mapper cfg EInternal = None ->
+   a_status (snd (fe_get_sth_signer_fails H cfg st)) = 500).
+Proof.
+  intros H sign cfg st. destruct (f_signer_failure H sign cfg st) as (A & B & C).
+  split; [exact A|]. split; [exact B|]. split; [exact C|]. apply signer_fails_500.
+Qed.
+Print Assumptions signer_failure_leaves_no_trace.
 
 (* 4. any two STHs served in a history: the earlier one is not larger, and at any later time the
       front end serves, for their two sizes, a consistency proof that verifies against their roots *)
